@@ -46,6 +46,8 @@ class ScalarMultiplication final : public Operator {
   S _s;
   /*! The operator to be multiplied. */
   O _o;
+  /*! Whether the operator is divided by (instead of multiplied with) _s. */
+  bool _divide = false;
 
  public:
   /*!
@@ -57,7 +59,8 @@ class ScalarMultiplication final : public Operator {
    * @param s The scalar to be multiplied.
    * @param o The operator to be multiplied.
    */
-  ScalarMultiplication(S s, O o) : _s(std::move(s)), _o(std::move(o)){};
+  ScalarMultiplication(S s, O o, bool divide = false)
+      : _s(std::move(s)), _o(std::move(o)), _divide(divide){};
 
   /*!
    * @brief Multiplication of scalar and a default constructed Operator.
@@ -100,7 +103,11 @@ class ScalarMultiplication final : public Operator {
 
     // Multiply a.
     for (T &el : a) {
-      el *= static_cast<T>(_s);
+      if (_divide) {
+        el /= static_cast<T>(_s);
+      } else {
+        el *= static_cast<T>(_s);
+      }
     }
     return a;
   }
@@ -163,7 +170,7 @@ template <
     typename S, typename O,
     std::enable_if_t<are_scalar_multiplication_types_v<S, O>, bool> = true>
 ScalarMultiplication<S, O> operator/(O &&o, const S &s) {
-  return ScalarMultiplication(static_cast<S>(1) / s, std::forward<O>(o));
+  return ScalarMultiplication(s, std::forward<O>(o), true);
 }
 
 /*!
